@@ -89,6 +89,13 @@ Alphabet ==
            Ph("do", <<L(2), L(0), Wd("do")>>), Ph("loop", <<Wd("loop")>>),
            Ph("local", <<Wd("I"), Wd("local"), Wd("x")>>), Ph("local", <<L(7), Wd("local"), Wd("x")>>), Ph("local", <<L(8), Wd("local"), Wd("y")>>),
            Ph("lref", <<Wd("x")>>), Ph("lref", <<Wd("y")>>), Plain(<<Wd("drop")>>) >>
+    [] Frag = "late" ->         \* forward references: bound when first called (the compiled code patches itself)
+        << Plain(<<L(1)>>), Plain(<<L(2)>>), Plain(<<Wd("+")>>), Plain(<<Wd("drop")>>),
+           Ph("late", <<Wd("late"), Wd("g")>>), Ph("late", <<Wd("late"), Wd("f")>>),
+           Ph("def", <<Wd(":"), Wd("f")>>), Ph("def", <<Wd(":"), Wd("g")>>), Ph("enddef", <<Wd(";")>>),
+           Ph("call", <<Wd("f")>>), Ph("call", <<Wd("g")>>),
+           Ph("var", <<Wd("var"), Wd("g")>>), Ph("setvar", <<Wd("!"), Wd("g")>>),
+           Ph("if", <<Wd("dup"), L(2), Wd("<"), Wd("if")>>), Ph("then", <<Wd("then")>>) >>
     [] Frag = "metalim" ->      \* growth inside meta blocks (the hidden outer stack counts towards the stack limit)
         << Plain(<<L(1)>>), Plain(<<Wd("dup")>>), Plain(<<Wd("drop")>>), Plain(<<Wd("+")>>),
            Ph("meta", <<Wd("#(")>>), Ph("endmeta", <<Wd("#)")>>), Ph("vec", <<Wd("[")>>), Ph("endvec", <<Wd("]")>>) >>
@@ -140,7 +147,8 @@ Allowed(ph) ==
     [] ph.rule = "endmeta" -> open # <<>> /\ Top = "meta"
     [] ph.rule = "endvec"  -> open # <<>> /\ Top = "vec"
     [] ph.rule = "enddef"  -> open # <<>> /\ Top = "def"
-    [] ph.rule = "call"    -> ph.toks[1].s \in Names(":")
+    [] ph.rule = "call"    -> ph.toks[1].s \in Names(":") \cup Names("late")
+    [] ph.rule = "late"    -> TRUE
     [] ph.rule = "local"   -> Has("def")
     [] ph.rule = "lref"    -> Has("def") /\ ph.toks[1].s \in Names("local")
     [] ph.rule = "var"     -> open = <<>>
